@@ -5,15 +5,15 @@ package sshwire
 // chosen key/IV; the sequence number is a call parameter) just below a carry
 // boundary; sshref seals a short stream for positions p..p+k across it
 // (control: accepted), and for every position q a packet sealed for
-// q' = q ± 2^n — same keys, same cipher state otherwise — which the reader at
+// q' = q ± (2^n + e), e in -2..2 — same keys, same cipher state otherwise — which the reader at
 // q must reject. Dimensions: the 32-bit sequence number (every mode that
 // authenticates it: all MACs and chacha20-poly1305; ± 2^32 is the same number
-// and not judged), the 64-bit AES-GCM invocation counter (every byte), and
-// the 128-bit AES-CTR counter block.
+// and not judged) and the 64-bit AES-GCM invocation counter (every byte). For
+// AES-CTR modes the 128-bit counter block is additionally positioned below a
+// carry boundary while the sequence number is aliased.
 
 import (
 	"bytes"
-	"encoding/binary"
 	"fmt"
 	"math/big"
 	"math/rand/v2"
@@ -34,15 +34,25 @@ type lrDim struct {
 var (
 	lrSeq = lrDim{"seq", 32, []int{8, 16, 24}, []int{8, 16, 24, 32}}
 	lrGCM = lrDim{"gcm-invocation-counter", 64, []int{8, 16, 24, 32, 40, 48, 56}, []int{8, 16, 24, 32, 40, 48, 56, 64}}
-	lrCTR = lrDim{"ctr-counter-block", 128, []int{8, 16, 24, 32, 64}, []int{8, 16, 24, 32}}
 )
+
+// offsets lists (sign, e) for the alias distances sign*(2^n+e).
+func (d lrDim) offsets() [][2]int64 {
+	es := []int64{0, -1, 1}
+	if d.name == lrGCM.name {
+		es = []int64{0, -1, 1, -2, 2}
+	}
+	var l [][2]int64
+	for _, e := range es {
+		l = append(l, [2]int64{1, e}, [2]int64{-1, e})
+	}
+	return l
+}
 
 func lrDims(p pair) []lrDim {
 	switch {
 	case strings.Contains(p.cipher, "gcm"):
 		return []lrDim{lrGCM} // RFC 5647: the sequence number is not an input
-	case strings.HasSuffix(p.cipher, "-ctr"):
-		return []lrDim{lrSeq, lrCTR}
 	}
 	return []lrDim{lrSeq}
 }
@@ -94,23 +104,25 @@ func c26LongReplay(m *mon.M, p pair, round int, r *rand.Rand) {
 		switch dim.name {
 		case lrSeq.name:
 			startSeq = uint32(belowBoundary(r, 32, b, d).Uint64())
+			if strings.HasSuffix(p.cipher, "-ctr") {
+				// also put the AES-CTR counter block just below a carry
+				// boundary; it is only positioned, not aliased: the block
+				// counter is not an authenticated per-packet position (with
+				// EtM MACs the ciphertext, not the keystream offset, is
+				// what is authenticated), so "sealed at another counter
+				// value under the same sequence number" is not a replay.
+				baseIV = fixedBytes(belowBoundary(r, 128, mon.Pick(r, []int{8, 16, 32, 64, 128}), r.IntN(3)), 16)
+			}
 		case lrGCM.name:
 			ctr0 = belowBoundary(r, 64, b, d)
 			copy(baseIV[4:], fixedBytes(ctr0, 8))
-		case lrCTR.name:
-			ctr0 = belowBoundary(r, 128, b, d)
-			baseIV = fixedBytes(ctr0, 16)
 		}
 		ivFor := func(shift *big.Int) []byte {
 			if shift == nil || ctr0 == nil {
 				return baseIV
 			}
 			iv := append([]byte(nil), baseIV...)
-			if dim.name == lrGCM.name {
-				copy(iv[4:], fixedBytes(addMod(ctr0, shift, 64), 8))
-			} else {
-				iv = fixedBytes(addMod(ctr0, shift, 128), 16)
-			}
+			copy(iv[4:], fixedBytes(addMod(ctr0, shift, 64), 8))
 			return iv
 		}
 		mkReal := func() *ssh.VerifPacketCipher {
@@ -170,6 +182,7 @@ func c26LongReplay(m *mon.M, p pair, round int, r *rand.Rand) {
 		// control: the reader accepts the whole legitimate stream across the boundary
 		rd := mkReal()
 		m.Eval()
+		controlOK := true
 		for j := 0; j < k; j++ {
 			got, err := rd.ReadPacket(startSeq+uint32(j), bytes.NewReader(legit[j]))
 			if err != nil || !bytes.Equal(got, payloads[j]) {
@@ -178,15 +191,21 @@ func c26LongReplay(m *mon.M, p pair, round int, r *rand.Rand) {
 					e = err.Error()
 				}
 				m.Violation("untouched-packet-before-fault-misread:"+cls, wit(map[string]any{"position": j, "err": e, "got": mon.Hex(got), "fault": "none (control stream across the carry boundary)"}))
-				return
+				controlOK = false
+				break // the aliases at and before this position can still be judged
 			}
 		}
 		m.Count("longreplay_control_packets", k)
-		allRejected := true
+		allRejected := controlOK
 		for j := 0; j < k; j++ {
 			for _, n := range dim.dists {
-				for _, sign := range []int64{1, -1} {
+				for _, se := range dim.offsets() {
+					sign, e := se[0], se[1]
+					// distance = sign * (2^n + e): a counter that drops a carry
+					// may restart at 0 or at 1, i.e. cycle with period 2^n or
+					// 2^n - 1, and drift by one per further boundary
 					delta := new(big.Int).Lsh(big.NewInt(1), uint(n))
+					delta.Add(delta, big.NewInt(e))
 					if sign < 0 {
 						delta.Neg(delta)
 					}
@@ -237,8 +256,12 @@ func c26LongReplay(m *mon.M, p pair, round int, r *rand.Rand) {
 					got, err := rd.ReadPacket(startSeq+uint32(j), bytes.NewReader(alias))
 					if err == nil {
 						allRejected = false
-						m.Violation(fmt.Sprintf("replay-accepted-at-distance:%s:2^%d", cls, n), wit(map[string]any{
-							"position": j, "distance": fmt.Sprintf("%+d * 2^%d", sign, n), "alias_packet": mon.FullHex(alias),
+						dist := fmt.Sprintf("2^%d", n)
+						if e != 0 {
+							dist = fmt.Sprintf("2^%d%+d", n, e)
+						}
+						m.Violation(fmt.Sprintf("replay-accepted-at-distance:%s:%s", cls, dist), wit(map[string]any{
+							"position": j, "distance": fmt.Sprintf("%+d * (%s)", sign, dist), "alias_packet": mon.FullHex(alias),
 							"returned_payload": mon.Hex(got), "payload_sealed_at_alias_position": mon.Hex(aliasPayload)}))
 						continue
 					}
@@ -252,7 +275,6 @@ func c26LongReplay(m *mon.M, p pair, round int, r *rand.Rand) {
 		}
 		m.Distinct(fmt.Sprintf("longreplay %s %s b=%d", dim.name, cls, b))
 	}
-	_ = binary.BigEndian
 }
 
 func lrGates(m *mon.M, modes []pair) {
@@ -262,7 +284,7 @@ func lrGates(m *mon.M, modes []pair) {
 			count[d.name]++
 		}
 	}
-	for _, dim := range []lrDim{lrSeq, lrGCM, lrCTR} {
+	for _, dim := range []lrDim{lrSeq, lrGCM} {
 		if count[dim.name] == 0 {
 			continue
 		}
